@@ -47,6 +47,10 @@ func TestVerif(t *testing.T) {
 }
 
 var registry = map[string]func(t *testing.T, c *Collector){
+	"C11": func(t *testing.T, c *Collector) {
+		c.res.Rule = "every history of <= depth ops (Put/Remove/Flush/GC) after each preamble x configuration is completed by superseding every live record (remove all / overwrite all) + Flush; non-current primary files without live records and non-current index files without bucket references are the premise files; then K = ceil(records/2)+3 cycles of PrimaryGC(threshold)+IndexGC+Flush: premise files must be empty (and gone if they were the oldest), reported storage must not grow in a cycle that relocated nothing, and after draining two further cycles must leave the directory byte-identical; non-trivial = histories with at least one premise file"
+		runSeqScenarios(c, c11Scenarios(c.job.Tier))
+	},
 	"C08": func(t *testing.T, c *Collector) { runC08(c) },
 	"C14": func(t *testing.T, c *Collector) { runC14(c) },
 	"C17": func(t *testing.T, c *Collector) {
